@@ -23,7 +23,7 @@ RULE = ("random Bayesian networks (random DAGs of every density, chains, forks, 
         "(sampled when > 12), virtual evidence; each query run through VariableElimination.map_query with "
         "elimination_order in {MinFill, MinNeighbors, MinWeight, WeightedMinFill, None, explicit random permutation}, "
         "BeliefPropagation.map_query on connected networks, max_marginal, and BayesianNetwork.predict on small frames; "
-        "Markov networks (unary/pairwise/triangle factors, same-scope factors in different axis orders, and EQUAL duplicate factors) for the elimination engine; plus direct streams for "
+        "SESSIONS: one long-lived BeliefPropagation or VariableElimination engine receiving 2..6 public calls (calibrate, max_calibrate, get_clique_beliefs, query, max_marginal, map_query with hard/virtual evidence, repeated and role-re-split questions) with every map_query answer judged as a single query is; Markov networks (unary/pairwise/triangle factors, same-scope factors in different axis orders, and EQUAL duplicate factors) for the elimination engine; plus direct streams for "
         "DiscreteFactor.assignment (unequal cardinalities, out-of-range indices), argmax and argmax+assignment on one "
         "factor.  Every implementation answer must (a) assign exactly the requested variables, (b) use valid state "
         "NAMES, (c) be accepted by the extracted verified checker map_chk on the exact rational posterior (or lie within "
@@ -309,16 +309,90 @@ def cases(tier, seed):
         out.append(gen_bn(rng, nmax, space))
     for _ in range(nt):
         out.append(gen_trap(rng))
+        out.append(gen_maxsum(rng))
     for _ in range(nm):
         out.append(gen_mn(rng, 5 if tier == "quick" else 6))
     for _ in range(npr):
         out.append(gen_prim(rng))
+    ns = 420 if tier == "quick" else 4200
+    for i in range(ns):
+        out.append(gen_session(rng, nmax, space, "bp" if i % 3 else "ve"))
     rng.shuffle(out)
     return out
 
 
+def gen_maxsum(rng):
+    """tree-shaped network on which max-product and sum-product tables rank states differently: near-uniform but
+    untied priors, every child CPD mixing deterministic and spread-out columns (max_c P(c|b) is 1 for some b and
+    1/card for others)"""
+    n = rng.randint(3, 5)
+    cards = [rng.choice([2, 2, 3, 3, 4]) for _ in range(n)]
+    parent = [None] + [rng.randrange(i) for i in range(1, n)]
+    cpds = []
+    for v in range(n):
+        c = cards[v]
+        if parent[v] is None:
+            base = {2: [7, 9], 3: [5, 5, 6], 4: [4, 4, 3, 5]}[c]
+            rng.shuffle(base)
+            cpds.append({"v": v, "pa": [], "rows": [[jf(Fraction(base[i], 16))] for i in range(c)]})
+            continue
+        pc = cards[parent[v]]
+        kinds = ["det", "spread"] + [rng.choice(["det", "spread", "rand"]) for _ in range(pc - 2)]
+        rng.shuffle(kinds)
+        cols = []
+        for kd in kinds:
+            if kd == "det":
+                k = rng.randrange(c)
+                cols.append([Fraction(int(i == k)) for i in range(c)])
+            elif kd == "spread":
+                col = {2: [Fraction(1, 2)] * 2, 3: [Fraction(3, 8), Fraction(3, 8), Fraction(1, 4)],
+                       4: [Fraction(1, 4)] * 4}[c]
+                col = list(col)
+                rng.shuffle(col)
+                cols.append(col)
+            else:
+                cols.append(common.rand_column(rng, c, zeros=True))
+        cpds.append({"v": v, "pa": [parent[v]], "rows": [[jf(cols[j][i]) for j in range(pc)] for i in range(c)]})
+    # relabel so that node ids are not in topological order
+    perm = list(range(n))
+    rng.shuffle(perm)
+    edges = [[perm[parent[v]], perm[v]] for v in range(1, n)]
+    rng.shuffle(edges)
+    cards2 = [0] * n
+    for v in range(n):
+        cards2[perm[v]] = cards[v]
+    cpds2 = [{"v": perm[d["v"]], "pa": [perm[p] for p in d["pa"]], "rows": d["rows"]} for d in cpds]
+    rng.shuffle(cpds2)
+    nodes = list(range(n))
+    rng.shuffle(nodes)
+    vstyle = rng.choice(["str", "int", "tuple", "mixed"])
+    return {"kind": "bn", "n": n, "nodes": nodes, "edges": edges, "cards": cards2, "cpds": cpds2, "shape": "maxsum",
+            "vstyle": vstyle, "vnames": name_specs(rng, n, vstyle),
+            "states": [state_specs(rng, cards2[v], rng.choice(STATE_STYLES)) for v in range(n)],
+            "qseed": rng.randint(0, 10 ** 9)}
+
+
+def gen_session(rng, nmax, space, engine):
+    """a network + ONE long-lived engine + a sequence of 2..6 public calls on it"""
+    while True:
+        r = rng.random()
+        c = gen_trap(rng) if r < 0.15 else (gen_maxsum(rng) if r < 0.6 else gen_bn(rng, nmax, space))
+        if engine == "bp" and not (c["n"] >= 2 and connected(c)):
+            continue
+        break
+    c = dict(c)
+    c["kind"] = "session"
+    c["engine"] = engine
+    c["nsteps"] = rng.randint(2, 6)
+    return c
+
+
 def shrink(case):
-    if case["kind"] == "bn":
+    if case["kind"] == "session" and case["nsteps"] > 1:
+        c = dict(case)
+        c["nsteps"] = case["nsteps"] - 1
+        yield c
+    if case["kind"] in ("bn", "session"):
         # drop a leaf node (keeps the rest a valid network)
         n = case["n"]
         for v in range(n):
@@ -842,9 +916,131 @@ def run_prim(case, drv):
               tags=tags)
 
 
+# ------------------------------------------------------------------ sessions: one engine, many calls
+def run_session(case, drv):
+    """ONE BeliefPropagation / VariableElimination object receives a sequence of public calls (calibrate,
+    max_calibrate, get_clique_beliefs, query, max_marginal, map_query with hard/virtual evidence, repeated and
+    role-re-split questions); every map_query answer is judged exactly like a single query (names, verified checker,
+    unique-maximum equality): state left on the engine by earlier calls must not leak into a MAP answer."""
+    from pgmpy.inference import VariableElimination, BeliefPropagation
+    from pgmpy.factors.discrete import TabularCPD
+    net = Net(case)
+    bn, fs = build_bn(net)
+    rng = random.Random(case["qseed"] + 17)
+    n = net.n
+    engine = case["engine"]
+    eng = BeliefPropagation(bn) if engine == "bp" else VariableElimination(bn)
+    tags = ["session engine=%s n=%d steps=%d" % (engine, n, case["nsteps"])]
+    if engine == "bp":
+        tags.append("session cliques=%d" % min(len(eng.junction_tree.nodes()), 4))
+    full = pos_state(rng, net, fs)
+    last = None           # previous (Q, ev, virt)
+    nontrivial = False
+    trace = []
+
+    def question(after_calibration=False):
+        nonlocal last
+        r = rng.random()
+        if after_calibration and r < 0.6:
+            # one variable, no evidence: the answer is read off a single clique belief
+            last = ([rng.randrange(n)], {}, {})
+            return last
+        if last is not None and r < 0.25:
+            return last                                    # the same question again
+        if last is not None and r < 0.5 and (last[1] or len(last[0]) > 1):
+            Q, ev, _ = last                                # same variables, roles re-split
+            pool = list(Q) + list(ev)
+            rng.shuffle(pool)
+            k = rng.randint(1, len(pool))
+            Q2 = pool[:k]
+            ev2 = {v: full[v] for v in pool[k:]}
+            last = (Q2, ev2, {})
+            return last
+        k = 0 if rng.random() < 0.5 else rng.randint(0, n - 1)
+        E = rng.sample(range(n), k)
+        ev = {v: full[v] for v in E}
+        free = [v for v in range(n) if v not in ev]
+        # mostly small query sets, so that query + evidence do not span the whole clique tree
+        Q = rng.sample(free, 1 if rng.random() < 0.5 else rng.randint(1, len(free)))
+        virt = {}
+        rest = [v for v in free if v not in Q]
+        if rest and rng.random() < 0.3:
+            v = rng.choice(rest + Q)
+            wts = [Fraction(rng.choice([0, 1, 2, 3, 4, 6, 8]), 8) for _ in range(net.cards[v])]
+            wts[full[v]] = max(wts[full[v]], Fraction(1, 8))
+            virt[v] = wts
+        last = (Q, ev, virt)
+        return last
+
+    ops_bp = ["calibrate", "max_calibrate", "max_calibrate", "beliefs", "query", "map", "map", "map"]
+    ops_ve = ["query", "max_marginal", "map", "map", "map"]
+    steps = [rng.choice(ops_bp if engine == "bp" else ops_ve) for _ in range(case["nsteps"])]
+    if "map" not in steps:
+        steps[-1] = "map"
+    if engine == "bp" and rng.random() < 0.6:
+        # the critical adjacency: beliefs left by a public (max-)calibration, then a MAP question
+        if rng.random() < 0.5:
+            steps = [rng.choice(["max_calibrate", "max_calibrate", "max_calibrate", "calibrate"]), "map"] * max(1, len(steps) // 2)
+        else:
+            i = rng.randrange(len(steps) - 1)
+            steps[i] = rng.choice(["max_calibrate", "max_calibrate", "calibrate"])
+            steps[i + 1] = "map"
+    for op in steps:
+        trace.append(op)
+        if op == "calibrate":
+            eng.calibrate()
+            continue
+        if op == "max_calibrate":
+            eng.max_calibrate()
+            continue
+        if op == "beliefs":
+            eng.get_clique_beliefs()
+            continue
+        Q, ev, virt = question(len(trace) > 1 and trace[-2] in ("calibrate", "max_calibrate"))
+        evn = {net.vn[v]: net.st[v][s] for v, s in ev.items()}
+        Qn = [net.vn[v] for v in Q]
+        vev = [TabularCPD(net.vn[v], net.cards[v], [[float(x)] for x in virt[v]],
+                          state_names={net.vn[v]: list(net.st[v])}) for v in sorted(virt)] or None
+        trace[-1] = "%s Q=%s E=%s virt=%s" % (op, Q, sorted(ev), sorted(virt))
+        if op == "query":
+            kw = {} if engine == "bp" else {"elimination_order": rng.choice(["greedy", "MinFill"])}
+            eng.query(variables=list(Qn), evidence=dict(evn) or None, virtual_evidence=vev,
+                      joint=rng.random() < 0.5, show_progress=False, **kw)
+            continue
+        if op == "max_marginal":
+            eng.max_marginal(variables=list(Qn), evidence=dict(evn) or None, show_progress=False)
+            continue
+        fsq = fs + [[[v], virt[v]] for v in sorted(virt)]
+        J = Judge(drv, net, fsq, Q, ev, True)
+        if J.maxw <= 0:
+            return bad("harness:evidence-has-zero-mass", {"Q": Q, "ev": ev})
+        if J.rest and len(J.w) >= 2:
+            nontrivial = True
+        kw = {}
+        if engine == "ve":
+            perm = list(J.rest)
+            rng.shuffle(perm)
+            eo = rng.choice(HEURISTICS + [None, "explicit"])
+            kw["elimination_order"] = [net.vn[v] for v in perm] if eo == "explicit" else eo
+        res = eng.map_query(variables=list(Qn), evidence=dict(evn) or None, virtual_evidence=vev,
+                            show_progress=False, **kw)
+        b = J.judge(res, "session %s: %s" % (engine, " ; ".join(trace)), strict_ties=(engine == "ve"))
+        tags.append("session map after %s" % (trace[-2].split(" ")[0] if len(trace) > 1 else "nothing"))
+        if b == "near":
+            tags.append("near-tie-accepted")
+        elif b:
+            b["kind"] = b["kind"] + ":session"
+            return b
+    return ok(nontrivial=nontrivial, key=common.canon_key(["session", case["engine"], case["nsteps"], case["edges"],
+                                                            case["cards"], case["cpds"], case["vnames"], case["states"],
+                                                            case["qseed"]]), tags=tags)
+
+
 def run_case(case, drv):
     if case["kind"] == "bn":
         return run_bn(case, drv)
+    if case["kind"] == "session":
+        return run_session(case, drv)
     if case["kind"] == "mn":
         return run_mn(case, drv)
     return run_prim(case, drv)
